@@ -278,6 +278,10 @@ def battery_for(ctx, name, t, g, aux):
             for lab, lst in [("[other]", [other]), ("[]", []), ("[other,aux]", [other, aux]), ("(tuple)", (other,))]:
                 b.add("pos" + lab, lambda l=lst: t.coalesce(l), lambda l=lst: coalesce([t, *l]))
             b.add("kw[other]", lambda: t.coalesce(triangles=[other]), lambda: coalesce([t, other]))
+            # one-shot iterables: the wrapper unpacks them exactly once
+            b.add("pos(generator)", lambda: t.coalesce(x for x in [other, aux]), lambda: coalesce([t, other, aux]))
+            b.add("pos(iter)", lambda: t.coalesce(iter([aux, other])), lambda: coalesce([t, aux, other]))
+            b.add("pos(map)", lambda: t.coalesce(map(lambda x: x, [other, aux])), lambda: coalesce([t, other, aux]))
         else:
             for lab, args, kwargs in [("pos(src)", (src_,), {}), ("pos(src,[])", (src_, []), {}), ("kw(statics=[])", (src_,), {"statics": []}),
                                       ("pos(src,())", (src_, ()), {}), ("pos(src,fields[:1])", (src_, fields[:1]), {}),
@@ -323,6 +327,9 @@ def battery_for(ctx, name, t, g, aux):
                 b.add(lab + ":twice", lambda k=kwargs: (t.blend([t2], **k), t.blend([t2], **k))[1], lambda k=kwargs: t.blend([t2], **k))
         b.add("kw(triangles=)", lambda: t.blend(triangles=[t2], method="linear"), lambda: blend([t, t2], method="linear"))
         b.add("empty-list", lambda: t.blend([]), lambda: blend([t]))
+        b.add("generator", lambda: t.blend((x for x in [t2]), method="linear"), lambda: blend([t, t2], method="linear"))
+        b.add("iter", lambda: t.blend(iter([t2, t]), method="linear", weights=[0.5, 0.25, 0.25]),
+              lambda: blend([t, t2, t], method="linear", weights=[0.5, 0.25, 0.25]))
     elif name == "thin":
         from bermuda.utils import thin
 
